@@ -22,8 +22,10 @@ type RingCase struct {
 }
 
 // RunRing applies the operations to the real ring buffer and to a slice model.
-// Domain: Pull is issued only when it cannot block (queue non-empty or closed);
-// Push between Close and Reset is outside the domain (the real callers never do it).
+// Domain: Pull is issued only when it cannot block (queue non-empty or closed).
+// Push between Close and Reset is inside the domain: the stream fan-out and Client.WritePacketRTP push to a writer
+// that the session goroutine is closing at that moment (destroyWriter closes first and unlinks afterwards). Close
+// empties the queue; what is accepted afterwards is pulled in acceptance order as long as somebody still pulls.
 func RunRing(c RingCase) error {
 	r, err := ringbuffer.New(c.Cap)
 	if err != nil {
@@ -35,11 +37,16 @@ func RunRing(c RingCase) error {
 	for i, op := range c.Ops {
 		switch op {
 		case 'p':
-			if closed {
-				continue
-			}
 			want := uint64(len(q)) < c.Cap
 			got := r.Push(next)
+			if closed {
+				// a closed queue may accept, drop or refuse: only the order of what it hands out is judged
+				if got {
+					q = append(q, next)
+				}
+				next++
+				continue
+			}
 			if got != want {
 				return fmt.Errorf("op %d push: returned %v with %d of %d slots used", i, got, len(q), c.Cap)
 			}
@@ -52,6 +59,24 @@ func RunRing(c RingCase) error {
 				continue
 			}
 			v, ok := r.Pull()
+			if closed {
+				// after Close a pull may report the end at any time; what it does return was accepted since the
+				// Close and comes out in acceptance order (earlier items it skipped are dropped for good)
+				if !ok {
+					continue
+				}
+				j := -1
+				for k, x := range q {
+					if x == v.(int) {
+						j = k
+					}
+				}
+				if j < 0 {
+					return fmt.Errorf("op %d pull on a closed buffer returned %v, which is not among the items accepted since Close and not yet passed (%v): out of order or resurrected", i, v, q)
+				}
+				q = q[j+1:]
+				continue
+			}
 			if len(q) > 0 {
 				if !ok || v.(int) != q[0] {
 					return fmt.Errorf("op %d pull: got (%v,%v), want %d (queue %v)", i, v, ok, q[0], q)
@@ -103,6 +128,7 @@ type execRec struct {
 type queueStats struct {
 	Refused, Accepted, Executed int
 	CloseOverlap                bool
+	RanAfterCloseInvoked        int // executed items whose Push returned after Close had been invoked
 }
 
 func gortsplibStacks() string {
@@ -305,17 +331,22 @@ func runQueue(c QueueCase) (*queueStats, error) {
 			return st, fmt.Errorf("item (%d,%d) executed twice", e.prod, e.k)
 		}
 		seen[key] = true
+		if r.resp >= closeInv {
+			st.RanAfterCloseInvoked++
+		}
 		if e.start < r.inv {
 			return st, fmt.Errorf("item (%d,%d) executed before it was pushed", e.prod, e.k)
 		}
-		// ordering is judged only among items accepted before Close was invoked: Close empties the ring
-		// without moving its indices, so items pushed while Close is in progress land in arbitrary slots
-		if r.resp < closeInv {
-			if lk, ok := lastK[e.prod]; ok && e.k <= lk {
-				return st, fmt.Errorf("producer %d: item %d executed after item %d (acceptance order violated)", e.prod, e.k, lk)
+		// whatever is executed is executed in acceptance order, also what was pushed while Close was in progress
+		// (the session goroutine closes a writer that the stream goroutine is still pushing to)
+		if lk, ok := lastK[e.prod]; ok && e.k <= lk {
+			when := "before Close was invoked"
+			if r.resp >= closeInv {
+				when = "while Close was in progress"
 			}
-			lastK[e.prod] = e.k
+			return st, fmt.Errorf("producer %d: item %d executed after item %d (acceptance order violated; item %d was pushed %s)", e.prod, e.k, lk, e.k, when)
 		}
+		lastK[e.prod] = e.k
 		if i > 0 && e.start < execs[i-1].end {
 			return st, fmt.Errorf("two items executed concurrently: more than one consumer")
 		}
@@ -348,11 +379,12 @@ func runQueue(c QueueCase) (*queueStats, error) {
 			}
 			pb, okb := pos[[2]int{b.prod, b.k}]
 			// (items pending when Close is invoked are discarded, while an item pushed during Close may
-			// still run before Close returns: only pairs accepted before Close was invoked are judged)
+			// still run before Close returns: a gap is judged only among pairs accepted before Close was invoked;
+			// the order of two items that both ran is judged always)
 			if okb && !oka && b.resp < closeInv {
 				return st, fmt.Errorf("item (%d,%d) was accepted strictly before (%d,%d) but only the later one was executed", a.prod, a.k, b.prod, b.k)
 			}
-			if oka && okb && pa > pb && b.resp < closeInv {
+			if oka && okb && pa > pb {
 				return st, fmt.Errorf("item (%d,%d) was accepted strictly before (%d,%d) but executed after it", a.prod, a.k, b.prod, b.k)
 			}
 		}
